@@ -108,7 +108,10 @@ class A(Adapter):
         for i, (r, c, d, carrying) in enumerate(ag):
             t = self._ahead(shape, r, c, d)
             if t is None:
-                lo[i, FORWARD] = False  # forward against the outer wall: the docs are silent (the agent just stays) - not judged
+                # forward against the outer wall: the only documented reason for an invalid action is "carrying a shelf and collides with
+                # another shelf" (utils.is_valid_action docstring; docs: the mask says which action is legal) - there is no shelf ahead, so
+                # the move is legal (the agent just stays) and must not be hidden, whether the agent carries a shelf or not
+                pass
             elif carrying and t in shelf_cells:
                 lo[i, FORWARD] = hi[i, FORWARD] = False
         return lo, hi
@@ -234,6 +237,8 @@ class A(Adapter):
         for i, (r, c, d, carrying) in enumerate(ag0):
             t, a = self._ahead(hw.shape, r, c, d), acts[i]
             target.append((r, c))
+            if t is None and carrying:
+                ev.append("carrier_faces_outer_wall")
             if a == FORWARD:
                 if t is None:
                     ev.append("forward_against_outer_wall")
